@@ -814,6 +814,8 @@ def get_mttkrp_factors(
 
     assert len(U) == ndims, "List of factor matrices is the wrong length"
 
+    assert 0 <= n < ndims, "Mode n must be in [0, ndims)"
+
     return U
 
 
